@@ -122,9 +122,13 @@ Record schema := mkSchema {
 
 Definition pad {A} (l : list A) (x : A) (k : nat) : list A := l ++ repeat x k.
 
-(** build_schema.  carquet_arena_calloc returns NULL for a zero-byte request, so a schema without any
+(** build_schema.  Elements without a name are rejected (repair 4: the name accessor promises non-NULL).
+    carquet_arena_calloc returns NULL for a zero-byte request, so a schema without any
     childless element is rejected with OUT_OF_MEMORY ("Failed to allocate schema arrays"). *)
+Definition has_name (e : elem) : bool := match e_name e with Some _ => true | None => false end.
+
 Definition build_schema (elems : list elem) : res schema :=
+  if negb (forallb has_name elems) then Err E_CARQUET_ERROR_INVALID_SCHEMA else
   let nl := count_leaves elems in
   match nl with
   | O => Err E_CARQUET_ERROR_OUT_OF_MEMORY
